@@ -277,6 +277,8 @@ ALLOC_CALLS = {'conv2d', 'conv_transpose2d', 'pad', 'cat', 'stack', 'zeros', 'ne
                'afb1d_atrous', 'colfilter', 'rowfilter', 'coldfilt', 'rowdfilt', 'colifilt', 'rowifilt', 'c2q', 'prep_filt', 'float', 'double'}
 VIEW_METHODS = {'view', 'reshape', 'transpose', 'permute', 'squeeze', 'unsqueeze', 'T', 'ravel', 'detach', 'narrow', 'expand', 't'}
 GLOBAL_STATE_CALLS = {'get_default_dtype', 'set_default_dtype', 'is_grad_enabled', 'manual_seed', 'seed', 'rand', 'randn', 'random', 'time', 'getenv'}
+SELF_MUTATORS = {'to', 'float', 'double', 'half', 'bfloat16', 'cuda', 'cpu', 'type', 'register_buffer', 'register_parameter', 'load_state_dict',
+                 'requires_grad_', 'train', 'eval', 'apply', 'add_module', 'zero_grad', '__setattr__', 'update'}
 CREATE_CALLS = {'zeros', 'ones', 'tensor', 'empty', 'full', 'arange', 'eye'}
 
 
@@ -416,6 +418,12 @@ class EffectVisitor:
             n = call_name(node.func)
             if isinstance(node.func, ast.Attribute) and n.endswith('_') and not n.startswith('__') and n not in ('requires_grad_',):
                 self.sites.append(('inplace', 'method:%s' % n, self.prov_of_expr(node.func.value), node.lineno))
+            if isinstance(node.func, ast.Attribute) and isinstance(node.func.value, ast.Name) and node.func.value.id == 'self' \
+                    and n in SELF_MUTATORS and self.fn.name in ('forward', 'backward', '__call__'):
+                self.sites.append(('self_write', 'self.%s()' % n, 'attr', node.lineno))
+            if n == 'setattr' and node.args and isinstance(node.args[0], ast.Name) and node.args[0].id == 'self' \
+                    and self.fn.name in ('forward', 'backward', '__call__'):
+                self.sites.append(('self_write', 'setattr(self)', 'attr', node.lineno))
             if any(k.arg == 'out' for k in node.keywords):
                 self.sites.append(('inplace', 'out=', 'unknown', node.lineno))
             if n in GLOBAL_STATE_CALLS:
